@@ -256,6 +256,17 @@ pawn_q_harness!(gen_q_kp_kp_ep_white_complete, 1, true, &[(0, 1), (1, 1)], true,
 pawn_q_harness!(gen_q_kp_kp_ep_black_sound, 0, false, &[(1, 1), (0, 1)], true, 12);
 pawn_q_harness!(gen_q_kp_kp_ep_black_complete, 1, false, &[(1, 1), (0, 1)], true, 12);
 
+// added after the third round of seeded changes (two capture-promotions in one direction; an en-passant
+// capture next to an ordinary capture on the other side): kings concrete, more pawns and targets
+pawn_q_harness!(gen_q_kpp_knn_white_sound, 0, true, &[(0, 1), (0, 1), (1, 2), (1, 2)], false, 32);
+pawn_q_harness!(gen_q_kpp_knn_white_complete, 1, true, &[(0, 1), (0, 1), (1, 2), (1, 2)], false, 32);
+pawn_q_harness!(gen_q_kpp_knn_black_complete, 1, false, &[(1, 1), (1, 1), (0, 2), (0, 2)], false, 32);
+pawn_q_harness!(gen_q_kp_kpn_ep_white_sound, 0, true, &[(0, 1), (1, 1), (1, 2)], true, 16);
+pawn_q_harness!(gen_q_kp_kpn_ep_white_complete, 1, true, &[(0, 1), (1, 1), (1, 2)], true, 16);
+pawn_q_harness!(gen_q_kp_kpn_ep_black_complete, 1, false, &[(1, 1), (0, 1), (0, 2)], true, 16);
+pawn_q_harness!(gen_q_kpp_kp_ep_white_complete, 1, true, &[(0, 1), (0, 1), (1, 1)], true, 24);
+pawn_q_harness!(gen_q_kpp_kp_ep_black_complete, 1, false, &[(1, 1), (1, 1), (0, 1)], true, 24);
+
 // castling: king and both rooks at home with symbolic rights; the opposing king and one opposing rook on
 // symbolic squares (attacks on e/f/g, e/d/c, b1/b8; blockers on the path)
 macro_rules! castle_harness {
